@@ -1091,13 +1091,13 @@ PLAN['C08']['rule'] += ' Stage light_xorzero: the same behaviours with leaf valu
 # --------------------------------------------------------------------------- the pointer forest (nieces, aunts) at spec level
 def pollardalg(tier):
     q = tier == 'quick'
-    return {'kind': 'spec_check', 'name': 'pollardalg_refines', 'module': 'PollardAlg', 'spec': 'PSpec',
-            'constants': {'MaxN': 7 if q else 8, 'MaxAdds': 3, 'PVariant': '"ok"'}, 'invariants': ['PollardRefines', 'AuntOK'],
+    return {'kind': 'spec_check', 'name': 'pollardalg_refines', 'module': 'PollardAlg', 'spec': 'PUSpec',
+            'constants': {'MaxN': 6 if q else 7, 'MaxAdds': 3, 'PVariant': '"ok"'}, 'invariants': ['PollardRefines', 'AuntOK'],
             'timeout': 900 if q else 7200}
 
 
 def pollardalg_neg(tier):
-    return {'kind': 'spec_check', 'name': 'pollardalg_neg', 'module': 'PollardAlg', 'spec': 'PSpec',
+    return {'kind': 'spec_check', 'name': 'pollardalg_neg', 'module': 'PollardAlg', 'spec': 'PUSpec',
             'constants': {'MaxN': 8, 'MaxAdds': 3, 'PVariant': '"nochildren"'}, 'invariants': ['PollardRefines', 'AuntOK'],
             'expect_violation': True, 'timeout': 600}
 
@@ -1109,3 +1109,16 @@ for _p in ('C01', 'C10'):
                          'hands the children of the moving node to its new sibling and re-hashes) and TLC checks over all block histories that walking '
                          'nieces from the roots finds Forest!NodeAt at every position and that every aunt pointer is right; the variant that does '
                          'not hand the children over is refuted.')
+
+
+def pollardalg_undo_neg(tier):
+    return {'kind': 'spec_check', 'name': 'pollardalg_undo_neg', 'module': 'PollardAlg', 'spec': 'PUSpec',
+            'constants': {'MaxN': 6, 'MaxAdds': 3, 'PVariant': '"noempties"'}, 'invariants': ['PollardRefines', 'AuntOK'],
+            'expect_violation': True, 'timeout': 600}
+
+
+PLAN['C06']['stages'] = (lambda f: (lambda tier, seed: [pollardalg(tier), pollardalg_undo_neg(tier)] + f(tier, seed)))(PLAN['C06']['stages'])
+PLAN['C06']['rule'] += (' spec/PollardAlg.tla transcribes the Undo of the pointer forest (lowest roots split again, empty roots put back from the previous '
+                        'root list, a node per deleted leaf, twins joined, nodes put back from the highest position down) and TLC checks that after every '
+                        'block and its undo walking nieces from the roots again finds Forest!NodeAt of the previous state and all aunt pointers are right; '
+                        'the variant that does not put the empty roots back is refuted.')
